@@ -20,10 +20,16 @@ use syn::visit::Visit;
 
 #[path = "c12_sharing.rs"]
 mod sharing;
+#[path = "c12_instr.rs"]
+mod instr;
+#[path = "c12_globals.rs"]
+mod globals;
 
 pub const TARGETS: &[Target] = &[
     ("c12bounds", "C12Bounds", c12bounds as Gen),
     ("c12sharing", "C12Sharing", sharing::c12sharing as Gen),
+    ("c12instr", "C12Instr", instr::c12instr as Gen),
+    ("c12globals", "C12Globals", globals::c12globals as Gen),
 ];
 
 fn bound_name(s: &str) -> &'static str {
